@@ -37,6 +37,7 @@ struct ghost_t {
   int seq_on;           /* SEQ: all callbacks the document's content needs are present (a missing one aborts a handler half-way) */
   int seq_expect;       /* SEQ: number of the executable element that has to run next (0: no handler running) */
   int seq_started[D_SEQ + 1]; /* SEQ: how often the handler block beginning with element n was started in this step */
+  int seq_loop[D_SEQ + 1];    /* SEQ: <foreach> n: 0 not running, 1 initialised (foreach_next is due), 2 exhausted (foreach_done is due) */
 #endif
   int ans_m[D_T + 1];   /* what is_matched answers for transition t during this step (chosen up front, any value) */
   int ans_c[D_T + 1];   /* what is_true answers for the condition text of transition t (one answer per text) */
@@ -178,14 +179,41 @@ static int stub_log(const uscxml_ctx *ctx, const char *label, const char *expr) 
 }
 static int stub_raise(const uscxml_ctx *ctx, const char *event) { SEQ_PLAIN(event); g_calls = 1; return nondet_err(); }
 static int stub_send(const uscxml_ctx *ctx, const uscxml_elem_send *send) { g_calls = 1; __CPROVER_assert(send != 0, "C04.callback: send element"); if (send != 0) SEQ_PLAIN(send->event); return nondet_err(); }
-static int stub_foreach_init(const uscxml_ctx *ctx, const uscxml_elem_foreach *f) { g_calls = 1; return nondet_err(); }
+static int stub_foreach_init(const uscxml_ctx *ctx, const uscxml_elem_foreach *f) {
+  g_calls = 1;
+#if D_SEQ > 0 && defined(SPEC_ANS)
+  { int n_ = (G.seq_on && f != 0) ? seq_num(f->array) : 0;
+    if (n_) { if (seq_visit(n_, 3)) { __CPROVER_assert(G.seq_loop[n_] == 0, "C04.content: a <foreach> is initialised once"); G.seq_loop[n_] = 1; G.seq_expect = n_; } return USCXML_ERR_OK; } }
+#endif
+  return nondet_err();
+}
 static int stub_foreach_next(const uscxml_ctx *ctx, const uscxml_elem_foreach *f) {
   g_calls = 1;
+#if D_SEQ > 0 && defined(SPEC_ANS)
+  { int n_ = (G.seq_on && f != 0) ? seq_num(f->array) : 0;
+    if (n_ >= 1 && n_ <= D_SEQ) {
+      __CPROVER_assert(G.seq_expect == n_ && G.seq_loop[n_] == 1, "C04.content: foreach_next is asked at the head of the loop: after foreach_init and after every complete pass through the body");
+      if (g_foreach_budget > 0 && nondet_bool()) { g_foreach_budget--; G.seq_expect = d_seq_true[n_]; return USCXML_ERR_OK; }
+      G.seq_loop[n_] = 2;
+      return USCXML_ERR_FOREACH_DONE;
+    } }
+#endif
   if (g_foreach_budget <= 0) return USCXML_ERR_FOREACH_DONE;
   g_foreach_budget--;
   return nondet_err();
 }
-static int stub_foreach_done(const uscxml_ctx *ctx, const uscxml_elem_foreach *f) { g_calls = 1; return nondet_err(); }
+static int stub_foreach_done(const uscxml_ctx *ctx, const uscxml_elem_foreach *f) {
+  g_calls = 1;
+#if D_SEQ > 0 && defined(SPEC_ANS)
+  { int n_ = (G.seq_on && f != 0) ? seq_num(f->array) : 0;
+    if (n_ >= 1 && n_ <= D_SEQ) {
+      __CPROVER_assert(G.seq_expect == n_ && G.seq_loop[n_] == 2, "C04.content: foreach_done is called once, when foreach_next has reported the end of the array");
+      G.seq_loop[n_] = 0; G.seq_expect = d_seq_false[n_];
+      return USCXML_ERR_OK;
+    } }
+#endif
+  return nondet_err();
+}
 static int stub_assign(const uscxml_ctx *ctx, const uscxml_elem_assign *a) { g_calls = 1; __CPROVER_assert(a != 0, "C04.callback: assign element"); if (a != 0) SEQ_PLAIN(a->location); return nondet_err(); }
 static int stub_init(const uscxml_ctx *ctx, const uscxml_elem_data *d) { g_calls = 1; __CPROVER_assert(d != 0, "C04.callback: data element"); return nondet_err(); }
 static int stub_cancel(const uscxml_ctx *ctx, const char *sendid, const char *sendidexpr) { SEQ_PLAIN(sendid); g_calls = 1; return nondet_err(); }
@@ -278,7 +306,8 @@ static void setup_ctx(void) {
   G.last_tsrc = 0;
   for (int k = 0; k < USCXML_MAX_NR_STATES_BYTES; k++) G.il[k] = 0;
 #if D_SEQ > 0
-  G.seq_on = g_ctx.exec_content_log != 0 && g_ctx.exec_content_raise != 0 && g_ctx.exec_content_send != 0 && g_ctx.exec_content_assign != 0 && g_ctx.exec_content_cancel != 0 && g_ctx.is_true != 0;
+  for (int k = 0; k <= D_SEQ; k++) G.seq_loop[k] = 0;
+  G.seq_on = g_ctx.exec_content_foreach_init != 0 && g_ctx.exec_content_foreach_next != 0 && g_ctx.exec_content_foreach_done != 0 && g_ctx.exec_content_log != 0 && g_ctx.exec_content_raise != 0 && g_ctx.exec_content_send != 0 && g_ctx.exec_content_assign != 0 && g_ctx.exec_content_cancel != 0 && g_ctx.is_true != 0;
   G.seq_expect = 0;
   for (int k = 0; k <= D_SEQ; k++) G.seq_started[k] = 0;
 #endif
